@@ -49,6 +49,7 @@ class State:
         self.defs = []            # definitional constraints of fresh variables
         self.pairs = [(z3.RealVal(0), z3.RealVal(1))]   # (y, x) with x = exp(y)
         self.implicit = {}        # fresh var id -> how it is defined (differentiator)
+        self.memo = {}            # (kind, term id, ...) -> (term kept alive, fresh var)
         self.counter = 0
         self.solver = z3.Solver()
         self.solver.set('timeout', FEAS_TIMEOUT_MS)
@@ -475,9 +476,14 @@ class SymReal:
         if not (s >= 0):
             return math.nan
         st = cur()
-        y = st.fresh('root')
-        st.define(y >= 0, _pow_int(y, b) == _pow_int(s.t, abs(a)))
-        st.implicit[y.get_id()] = ('root', abs(a), b, s.t, y)
+        key = ('root', s.t.get_id(), abs(a), b)
+        if key in st.memo:
+            y = st.memo[key][1]
+        else:
+            y = st.fresh('root')
+            st.define(y >= 0, _pow_int(y, b) == _pow_int(s.t, abs(a)))
+            st.implicit[y.get_id()] = ('root', abs(a), b, s.t, y)
+            st.memo[key] = (s.t, y)
         r = SymReal(y)
         return r if a > 0 else 1 / r
 
@@ -485,9 +491,13 @@ class SymReal:
         if not (s >= 0):
             return math.nan
         st = cur()
+        key = ('root', s.t.get_id(), 1, 2)
+        if key in st.memo:
+            return SymReal(st.memo[key][1])
         y = st.fresh('sqrt')
         st.define(y * y == s.t, y >= 0)
         st.implicit[y.get_id()] = ('root', 1, 2, s.t, y)
+        st.memo[key] = (s.t, y)
         return SymReal(y)
 
     def log(s):
@@ -1019,3 +1029,66 @@ def model_num(m, term, default=None):
     if default is not None:
         return default
     raise Unsupported(f'cannot read model value of {term}: {v}')
+
+
+# --------------------------------------------------------------------------
+class SymArray(numpy.ndarray):
+    """object ndarray whose ufuncs are applied elementwise through the proxy semantics, so that
+    numpy.isnan / numpy.log / comparisons work on arrays with symbolic contents."""
+
+    def __array_ufunc__(self, ufunc, method, *inputs, **kw):
+        ins = [numpy.asarray(x).view(numpy.ndarray) if isinstance(x, SymArray) else x for x in inputs]
+        if method != '__call__':
+            if method == 'reduce':
+                return _ufunc(ufunc, method, *ins, **kw)
+            return NotImplemented
+        kw.pop('out', None)
+        if kw.get('where', True) is not True:
+            raise Unsupported('ufunc where= on SymArray')
+        r = _ufunc(ufunc, method, *[x if isinstance(x, numpy.ndarray) else x for x in ins])
+        if isinstance(r, numpy.ndarray) and r.dtype == object:
+            return r.view(SymArray)
+        return r
+
+    def any(self, *a, **k):
+        r = False
+        for v in numpy.asarray(self).view(numpy.ndarray).ravel():
+            if bool(v):
+                return True
+        return r
+
+    def all(self, *a, **k):
+        for v in numpy.asarray(self).view(numpy.ndarray).ravel():
+            if not bool(v):
+                return False
+        return True
+
+
+def symarray(items):
+    a = numpy.empty(len(items), dtype=object)
+    for i, v in enumerate(items):
+        a[i] = v
+    return a.view(SymArray)
+
+
+def nan_to_num_obj(x, copy=True, nan=0.0, posinf=None, neginf=None):
+    """numpy.nan_to_num with float semantics for object arrays / proxies (concrete nan/inf replaced)."""
+    big = numpy.finfo(float).max
+    def fix(v):
+        n = _nonfinite(v)
+        if n is None:
+            return v
+        if math.isnan(n):
+            return nan
+        return (posinf if posinf is not None else big) if n > 0 else (neginf if neginf is not None else -big)
+    if isinstance(x, numpy.ndarray) and x.dtype == object:
+        out = numpy.empty(x.shape, dtype=object)
+        for idx in numpy.ndindex(x.shape):
+            out[idx] = fix(x[idx])
+        return out.view(type(x)) if x.ndim else out[()]
+    if is_sym(x):
+        return x
+    return _REAL_NAN_TO_NUM(x, copy=copy, nan=nan, posinf=posinf, neginf=neginf)
+
+
+_REAL_NAN_TO_NUM = numpy.nan_to_num
